@@ -162,13 +162,21 @@ fn archive_events(sc: &str, mode: &str, items: &[Value], out: &mut Vec<Value>) {
         };
         let mut evs = vec![];
         let mut reread = vec![];
+        // the streaming reader takes the words from the local headers
+        let mut streamed = vec![];
+        {
+            let mut cur = Cursor::new(&bytes[..]);
+            while let Ok(Some(f)) = zip::read::read_zipfile_from_stream(&mut cur) {
+                streamed.push(fields(&f.last_modified()));
+            }
+        }
         for i in 0..ar.len() {
             let f = ar.by_index(i).unwrap();
             let lm = f.last_modified();
             reread.push(lm);
             let (cd, ct, ld, lt) = lw.get(i).cloned().unwrap_or((99999, 99999, 99999, 99999));
             evs.push(json!({"ev": "TArchive", "sc": sc, "mode": mode, "r": "ok", "a": src[i], "cd": cd, "ct": ct, "ld": ld, "lt": lt,
-                            "f": fields(&lm), "n": ar_len_hint(dts.len())}));
+                            "f": fields(&lm), "sf": streamed.get(i).cloned().unwrap_or(json!([0, 0, 0, 0, 0, 0])), "n": ar_len_hint(dts.len())}));
         }
         // a timestamp read from an archive is re-written unchanged (writer and raw copy)
         let again = write_with(&reread).unwrap_or_default();
